@@ -277,6 +277,71 @@ theorem rekey_partition_ok (cfg : Cfg) (g : G) (d x : String) : (rekey (genAdm c
 example : (rekey (genAdm genCfg cexG "d2") "G").2.nodes.map (·.cdel) =
     [.dels [("G", "e")], .absent, .absent] := by decide
 
+/-- **re-keying composes** (a → b): after a re-keying to `a` that did not raise, re-keying the result to `b` is
+exactly re-keying the original to `b` — in particular nothing but the key can have been lost on the way -/
+theorem rekey_compose (g : G) (a b : String) (h : (rekey g a).1 = false) :
+    rekey (rekey g a).2 b = rekey g b := by
+  unfold rekey
+  simp only
+  rw [rekeyNodes_comp a b g.nodes h]
+
+/-- **re-keying to the key already present is the identity**: if every delegation property is keyed by `x`
+(not an object, or a single entry under `x`) the graph is unchanged and nothing is raised -/
+theorem rekey_present_key_id (g : G) (x : String)
+    (h : ∀ n ∈ g.nodes, KeyedBy x n.ldel ∧ KeyedBy x n.cdel) : rekey g x = (false, g) := by
+  unfold rekey
+  rw [rekeyNodes_present x g.nodes h]
+
+/-- re-keying twice to the same id (what a merge of an already re-keyed ADM does) changes nothing more (a → a) -/
+theorem rekey_twice_same (g : G) (x : String) (h : (rekey g x).1 = false) :
+    rekey (rekey g x).2 x = (false, (rekey g x).2) := by
+  rw [rekey_compose g x x h]
+  exact Prod.ext h rfl
+
+/-- a → b → a ends where a → a does -/
+theorem rekey_there_and_back (g : G) (a b : String) (h : (rekey g a).1 = false) :
+    rekey (rekey (rekey g a).2 b).2 a = rekey g a := by
+  have hb : (rekey (rekey g a).2 b).1 = false := by
+    rw [rekey_compose g a b h]
+    unfold rekey at h ⊢
+    simp only at h ⊢
+    cases hr : (rekeyNodes b g.nodes).1 with
+    | false => rfl
+    | true =>
+      exfalso
+      -- whether it raises does not depend on the key
+      have : ∀ ns : List Node, (rekeyNodes a ns).1 = (rekeyNodes b ns).1 := by
+        intro ns
+        induction ns with
+        | nil => rfl
+        | cons n ns ih =>
+          have hi := Node.rekey_isSome_indep n a b
+          cases ha : n.rekey a with
+          | none =>
+            cases hb' : n.rekey b with
+            | none => rw [rekeyNodes_cons_none ns ha, rekeyNodes_cons_none ns hb']
+            | some m => rw [ha, hb'] at hi; cases hi
+          | some m =>
+            cases hb' : n.rekey b with
+            | none => rw [ha, hb'] at hi; cases hi
+            | some m' => rw [rekeyNodes_cons_some ns ha, rekeyNodes_cons_some ns hb']; exact ih
+      rw [this g.nodes, hr] at h
+      cases h
+  rw [rekey_compose _ b a hb, rekey_compose g a a h]
+
+/-- non-vacuity: the partition of `cexG` for `d2` re-keyed to `"G"` is keyed by `"G"` everywhere -/
+example : ∀ n ∈ (rekey (genAdm genCfg cexG "d2") "G").2.nodes, KeyedBy "G" n.ldel ∧ KeyedBy "G" n.cdel := by
+  have : (rekey (genAdm genCfg cexG "d2") "G").2.nodes =
+      [⟨"f1i", "ConnectionPoint", [], .absent, .dels [("G", "e")]⟩, ⟨"l1", "Link", [], .absent, .absent⟩,
+       ⟨"p", "ConnectionPoint", [], .absent, .absent⟩] := by decide
+  rw [this]
+  intro n hn
+  simp only [List.mem_cons, List.not_mem_nil, or_false] at hn
+  rcases hn with rfl | rfl | rfl
+  · exact ⟨Or.inl rfl, Or.inr ⟨"e", rfl⟩⟩
+  · exact ⟨Or.inl rfl, Or.inl rfl⟩
+  · exact ⟨Or.inl rfl, Or.inl rfl⟩
+
 /-- end to end for one holder: after partitioning for `d` and re-keying to graph id `x`, the holder's property
 has the single key `x` carrying the holder's original entry for `d` (or is absent if it had none) -/
 theorem rekey_partition_entry (n : Node) (d x : String) (hd : n.holds d = true) :
